@@ -319,7 +319,10 @@ def build_harness(name, source, config, extra=None, timeout=900, deps=None):
     rc, out = sh([CXX] + flags + include_flags() + [source, '-o', tmp, '-pthread'], timeout=timeout)
     if rc != 0:
         return None, out
-    os.replace(tmp, exe)
+    if config == 'syntax':
+        open(exe, 'w').close()      # a marker: this translation unit is accepted by the compiler
+    else:
+        os.replace(tmp, exe)
     return exe, out
 
 
